@@ -240,7 +240,7 @@ def execOneL (L : Limits) (env : PEnv) (mh : Match) (st : ExecSt) : Prog (ExecSt
     match fdr with
     | none => pure (st, true)
     | some fd =>
-      let rc ← execP fd
+      let rc ← execP mh.argv fd
       match fd with
       | some h => let _ ← call (.close h)
       | none => pure ()
